@@ -2,7 +2,10 @@
 
 package netty
 
-import "context"
+import (
+	"context"
+	"sync"
+)
 
 // No-op counterparts of the verification hooks (see verif_on.go): without the
 // build tag `verif` the call sites compile to nothing.
@@ -13,7 +16,8 @@ func (c *channel) verifSelectReady(ctx context.Context) bool { return true }
 func (c *channel) verifLockFree() bool                       { return true }
 func (c *channel) vpWait(point string, signal chan struct{}) {}
 
-func verifYield(point string, enabled func() bool) {}
-func verifYieldAt(point string, at string)         {}
-func verifYieldCh(point string, ch Channel)        {}
-func verifYieldObj(point string, obj interface{})  {}
+func verifYield(point string, enabled func() bool)           {}
+func verifYieldAt(point string, at string)                   {}
+func verifYieldCh(point string, ch Channel)                  {}
+func verifYieldObj(point string, obj interface{})            {}
+func verifYieldLock(point string, at string, mu *sync.Mutex) {}
